@@ -33,6 +33,20 @@ func (t *tokens) intervals() []interval.Interval[int64] {
 	return is
 }
 
+func (t *tokens) intervalsU() []interval.Interval[uint64] {
+	n := t.int()
+	is := make([]interval.Interval[uint64], 0, n)
+	for i := 0; i < n; i++ {
+		b := t.uint()
+		e := t.uint()
+		if b > e {
+			panic(parseError("begin > end"))
+		}
+		is = append(is, interval.New(b, e))
+	}
+	return is
+}
+
 func fmtIntervals[T int64 | uint64](m interval.Map[T]) string {
 	var sb strings.Builder
 	fmt.Fprintf(&sb, "%d", m.Len())
@@ -56,4 +70,19 @@ func init() {
 	register("iunion", binary(interval.MapUnion[int64]))
 	register("icompl", binary(interval.MapComplement[int64]))
 	register("iinter", binary(interval.MapIntersect[int64]))
+
+	// the same operations at the element type the program uses (model.Addr)
+	register("inewu", func(t *tokens) string {
+		return fmtIntervals(interval.NewMap(t.intervalsU()...))
+	})
+	binaryU := func(f func(a, b interval.Map[uint64]) interval.Map[uint64]) opFunc {
+		return func(t *tokens) string {
+			a := interval.NewMap(t.intervalsU()...)
+			b := interval.NewMap(t.intervalsU()...)
+			return fmtIntervals(f(a, b))
+		}
+	}
+	register("iunionu", binaryU(interval.MapUnion[uint64]))
+	register("icomplu", binaryU(interval.MapComplement[uint64]))
+	register("iinteru", binaryU(interval.MapIntersect[uint64]))
 }
